@@ -23,8 +23,8 @@ Counter p_self_assign("probe.optional_self_copy_assignment");
 Counter p_fault_make("probe.fault_inside_make_quaint");
 Counter p_fault_vec("probe.fault_inside_vector_growth");
 Counter p_fault_opt("probe.fault_inside_optional_copy");
-Counter p_types[3] = { Counter("payload.Small.created"), Counter("payload.Heapy.created"),
-                       Counter("payload.Large.created") };
+Counter p_types[4] = { Counter("payload.Small.created"), Counter("payload.Heapy.created"),
+                       Counter("payload.Large.created"), Counter("payload.Multi.created") };
 
 constexpr uint32_t ALIVE = 0xA11CE5ED, DEAD = 0xDEADDEAD;
 
@@ -140,6 +140,31 @@ struct Large
     }
 };
 
+// a payload with two bases: the address of its second base differs from the object's address,
+// so a deleter that went through the wrong static type would adjust the pointer wrongly
+struct BaseA
+{
+    char a[24];
+    virtual ~BaseA() = default;
+};
+struct BaseB
+{
+    Head h;
+    virtual ~BaseB() = default;
+};
+struct Multi : BaseA, BaseB
+{
+    explicit Multi(int v)
+    {
+        throw_site();
+        born(&h, this, 4, v);
+    }
+    ~Multi() override
+    {
+        died(&h, this, 4);
+    }
+};
+
 // payload of the optionals: copyable, instance-counted
 struct OptVal
 {
@@ -234,8 +259,10 @@ constexpr int NSLOT = 4, NOPT = 4;
 
 quaint_ptr make_typed(int type, int val)
 {
-    switch (type % 3)
+    switch (type % 4)
     {
+    case 3:
+        return nitro::lang::make_quaint<Multi>(val);
     case 0:
         return nitro::lang::make_quaint<Small>(val);
     case 1:
@@ -441,7 +468,7 @@ struct Exec
         {
         case K_MAKE:
         {
-            int type = static_cast<int>(op.a[1] % 3), val = static_cast<int>(op.a[2] % 100);
+            int type = static_cast<int>(op.a[1] % 4), val = static_cast<int>(op.a[2] % 100);
             if (!slot[si])
             {
                 NoFault nf;
@@ -584,7 +611,7 @@ struct Exec
         }
         case K_VEC_EMPLACE:
         {
-            int type = static_cast<int>(op.a[0] % 3), val = static_cast<int>(op.a[1] % 100);
+            int type = static_cast<int>(op.a[0] % 4), val = static_cast<int>(op.a[1] % 100);
             if (!vec)
             {
                 NoFault nf;
